@@ -33,6 +33,7 @@ BASE_CFGS = [
               "props": [{"id": 0x01, "n": 1}, {"id": 0x18, "n": 30}, {"id": 0x26, "s": b("k"), "t": b("v")}]}},
     {"rx": 64, "tx": 96, "client_id": b("tiny"), "ka": 10, "sei": 10, "auth": {"user": b("u"), "pass": [1, 2, 3]}},
     {"rx": 128, "tx": 1152, "client_id": b("wrap"), "ka": 60, "sei": 300, "first_id": 65530},
+    {"rx": 128, "tx": 512, "client_id": b("emptypw"), "ka": 20, "sei": 5, "auth": {"user": b("user"), "pass": []}},
 ]
 
 # wills whose properties are not legal on a will (Will::new must refuse them), and a legal one with every will property
@@ -81,7 +82,7 @@ PROFILES = {
 
 # (profile, config list, scenarios in quick tier, scenarios in thorough tier)
 COMMON = [
-    ("flow", BASE_CFGS[:4], 60, 600),
+    ("flow", BASE_CFGS[:4] + [BASE_CFGS[5]], 60, 600),
     ("faults", BASE_CFGS[:4], 40, 400),
     ("cancel", BASE_CFGS[:4], 50, 500),
     ("inbound", BASE_CFGS[:4], 40, 400),
